@@ -23,6 +23,18 @@ def numAFifo (k : Nat) (buffered : Bool) : NumMachine (AFState Nat) where
   key s := toString (repr s)
 
 
+/-- afifo_rst: inputs [tw, tr, mw, mr, sink.valid, sink.tok, source.ready, rst], outputs as afifo. -/
+def numAFifoR (k : Nat) (buffered : Bool) : NumMachine (AFState Nat) where
+  init := afInit k 0
+  step s ins :=
+    match ins with
+    | [tw, tr, mw, mr, v, d, r, rst] =>
+      let i : AFIn Nat := { tw := n2b tw, tr := n2b tr, mw := mw, mr := mr, valid := n2b v, tok := d, ready := n2b r }
+      some (afStepR k buffered 0 s i (n2b rst),
+            [b2n (writable k s), b2n (srcValid buffered s), srcTok buffered 0 s])
+    | _ => none
+  key s := toString (repr s)
+
 /-- Several independent asynchronous FIFOs side by side (`AXILiteClockDomainCrossing`: five channels);
     inputs and outputs are the concatenation of the per-FIFO lists. -/
 def numAFifoMulti (cfg : List (Nat × Bool)) : NumMachine (List (AFState Nat)) where
